@@ -753,6 +753,10 @@ func (y yearSerializer) serialize(ctx context.Context, typ sql.Type, value inter
 		return nil, fmt.Errorf("expected int16, but got %T", convertedValue)
 	}
 
+	// MySQL stores YEAR as one byte: 0 for the zero year 0000, otherwise the year minus 1900
+	if intValue == 0 {
+		return []byte{0}, nil
+	}
 	return []byte{byte(intValue - 1900)}, nil
 }
 
